@@ -23,7 +23,8 @@ type c07Trans struct {
 	Method  string `json:"method"`
 	Mask    int    `json:"mask"` // REP/SEP/AssumeREP/AssumeSEP mask, else -1
 	// Via: 0 the call is made on the emitter itself; 1 on a Clone that is then Appended (the tracked widths
-	// travel with it); 2 on a Clone whose Append is refused for lack of room (nothing may travel)
+	// travel with it); 2 on a Clone whose Append is refused for lack of room (nothing may travel); 3 like 1
+	// with the clone's target being the free tail of the parent's own buffer
 	Via int `json:"via,omitempty"`
 }
 
@@ -45,7 +46,9 @@ func c07Apply(x *cpuCtx, spec map[string]c03Spec, t c07Trans) (next byte, sig, w
 		return 0, "unexplained:assume-sep", fmt.Sprintf("AssumeSEP(%02x) on a fresh emitter gives Flags()=%02x", t.Tracked, byte(par.Flags()))
 	}
 	e := par
-	if t.Via != 0 {
+	if t.Via == 3 {
+		e = par.Clone(buf[par.Len():]) // the clone emits into the free tail of the parent's own buffer
+	} else if t.Via != 0 {
 		e = par.Clone(make([]byte, 16))
 	}
 	cpuP := t.Tracked & 0x30 // the CPU's m and x mirror the assumed widths (relation R)
@@ -63,7 +66,7 @@ func c07Apply(x *cpuCtx, spec map[string]c03Spec, t c07Trans) (next byte, sig, w
 		}()
 		e = par
 		switch {
-		case t.Via == 1 && pn != nil:
+		case (t.Via == 1 || t.Via == 3) && pn != nil:
 			return "unexplained:append-refused:" + t.Method, fmt.Sprintf("%s: Append of %d bytes into a 16-byte buffer panicked: %v", desc(), n, pn), false
 		case t.Via == 2 && n > 0 && pn == nil:
 			return "unexplained:append-without-room:" + t.Method, fmt.Sprintf("%s: Append of %d bytes into a full buffer was accepted", desc(), n), false
@@ -214,7 +217,7 @@ func c07Transitions(methods []string) []c07Trans {
 		}
 	}
 	direct := len(ts)
-	for via := 1; via <= 2; via++ {
+	for via := 1; via <= 3; via++ {
 		for _, t := range ts[:direct] {
 			if via == 2 && (t.Method == "AssumeREP" || t.Method == "AssumeSEP") {
 				continue // nothing is emitted: an empty Append fits anywhere
@@ -297,7 +300,7 @@ func runC07(r *report.Run) {
 	r.Set("bfs_levels", depth)
 	r.Set("transition_alphabet", map[string]interface{}{"instruction_methods": len(methods) - len(c07Excluded), "excluded": []string{"PLP", "RTI", "RTS", "RTL"}, "REP/SEP masks": 256, "AssumeREP/AssumeSEP masks": 256, "per_state": len(trans)})
 	r.Set("fixpoint", true)
-	r.Set("rule", "BFS to a fixpoint over the joint state (tracked flags byte; CPU m and x, which relation R ties to it) from the four initial width assumptions; every transition really calls the Emitter method on a fresh emitter -- directly, on a Clone that is Appended back (the tracked widths travel with the code), and on a Clone whose Append is refused for lack of room (nothing may travel) -- (every instruction method with one operand representative, control transfers aimed at the next instruction, label branches finalized to displacement 0, REP/SEP and AssumeREP/AssumeSEP with all 256 masks) and then really Steps both CPUs over the emitted bytes: the first bus read must be the opcode fetch at the address the assembler reported, the CPU must end exactly at the assembler's next instruction start and its m/x must equal the tracked widths; width-guarded immediates must be refused exactly on mismatch without touching the emitter. By induction on the length this covers every straight-line program over the alphabet")
+	r.Set("rule", "BFS to a fixpoint over the joint state (tracked flags byte; CPU m and x, which relation R ties to it) from the four initial width assumptions; every transition really calls the Emitter method on a fresh emitter -- directly, on a Clone that is Appended back (the tracked widths travel with the code; the clone's target a buffer of its own or the free tail of the parent's), and on a Clone whose Append is refused for lack of room (nothing may travel) -- (every instruction method with one operand representative, control transfers aimed at the next instruction, label branches finalized to displacement 0, REP/SEP and AssumeREP/AssumeSEP with all 256 masks) and then really Steps both CPUs over the emitted bytes: the first bus read must be the opcode fetch at the address the assembler reported, the CPU must end exactly at the assembler's next instruction start and its m/x must equal the tracked widths; width-guarded immediates must be refused exactly on mismatch without touching the emitter. By induction on the length this covers every straight-line program over the alphabet")
 	r.Sample(c07Trans{0x20, "LDA_imm8_b", -1, 0})
 	r.Sample(c07Trans{0x30, "REP", 0x31, 1})
 	r.Assume("operand values do not influence instruction length (C03 covers every operand value); one representative per method")
